@@ -64,6 +64,11 @@ def paths(extra=()):
         for e in exts:
             for variant in {e, e.upper(), e.capitalize()}:
                 out.append(f"{s}.{variant}" if e != "" else s)
+    # forms a path library would rewrite (trailing separators, '.' / '..' components, doubled separators, Windows separators,
+    # surrounding blanks): the router works on the raw string, so must everything that claims to be the router
+    for n in ("report.pdf", "Notes.DOCX", "bundle.tar.gz", "a.txt", "x.weird", "tool.exe", "noext", "a.c07m0"):
+        out += [f"{n}/", f"{n}//", f"{n}/.", f"{n}/..", f"./{n}", f"d/../{n}", f"d//{n}", f"{n}/x", f"{n}\\", f"d\\{n}", f" {n} ", f"{n}?v=1", f"{n}#frag",
+                f"file:///tmp/{n}", f"~/{n}", f"{n}/./"]
     return out
 
 
@@ -359,10 +364,79 @@ def attachment_dispatch():
     return None
 
 
+def public_surface():
+    """every module of the package that offers `is_supported_file` / `get_extractor` at module level (re-export, wrapper, alias)
+    against the router's own functions, on the whole path grammar and every MIME configuration"""
+    import ast, importlib, os
+    r = router()
+    import sharepoint2text
+    from sharepoint2text.parsing.exceptions import ExtractionFileFormatNotSupportedError
+    root = os.path.dirname(os.path.abspath(sharepoint2text.__file__))
+    surfaces = []
+    for dirpath, _d, files in os.walk(root):
+        if os.sep + "tests" in dirpath:
+            continue
+        for f in sorted(files):
+            if not f.endswith(".py"):
+                continue
+            full = os.path.join(dirpath, f)
+            try:
+                tree = ast.parse(open(full, encoding="utf-8").read())
+            except (SyntaxError, OSError):
+                continue
+            names = set()
+            for st in ast.walk(tree):
+                if isinstance(st, (ast.FunctionDef, ast.ClassDef)):
+                    names.add(st.name)
+                elif isinstance(st, ast.ImportFrom):
+                    names |= {a.asname or a.name for a in st.names}
+                elif isinstance(st, ast.Name) and isinstance(st.ctx, ast.Store):
+                    names.add(st.id)
+            if not names & {"is_supported_file", "get_extractor", "*"}:
+                continue
+            relmod = os.path.relpath(full, os.path.dirname(root))[:-3].replace(os.sep, ".")
+            if relmod.endswith(".__init__"):
+                relmod = relmod[:-9]
+            if relmod == "sharepoint2text.parsing.router":
+                continue
+            try:
+                mod = importlib.import_module(relmod)
+            except Exception:  # noqa
+                continue
+            for name in ("is_supported_file", "get_extractor"):
+                fn = getattr(mod, name, None)
+                if callable(fn) and fn is not getattr(r, name):
+                    surfaces.append((relmod, name, fn))
+    if not surfaces:
+        return None
+
+    def out(fn, p):
+        try:
+            v = fn(p)
+        except ExtractionFileFormatNotSupportedError:
+            return ("notsupported", None)
+        except Exception as e:  # noqa
+            return ("other", type(e).__name__)
+        if isinstance(v, bool):
+            return ("bool", v)
+        return ("ok", f"{getattr(v, '__module__', '?')}.{getattr(v, '__name__', '?')}")
+
+    for cname, setup in configs():
+        setup()
+        _clear_caches()
+        for p in paths():
+            for relmod, name, fn in surfaces:
+                want, got = out(getattr(r, name), p), out(fn, p)
+                if want != got:
+                    return ({"path": p, "mimetypes": cname}, f"router.{name}({p!r}) -> {want}", f"{relmod}.{name}({p!r}) -> {got}", f"{relmod}.{name}")
+    return None
+
+
 def _site_checks(req):
     """directed searches for the dispatch sites; the one the obligation is about runs first"""
     oid = (req.get("obligation") or "") + " " + (req.get("function") or "")
-    checks = [("archive_extractor", archive_wrappers), ("archive_extractor", archive_members), ("data_types", attachment_dispatch)]
+    checks = [("public-surface", public_surface), ("archive_extractor", archive_wrappers), ("archive_extractor", archive_members),
+              ("data_types", attachment_dispatch)]
     checks.sort(key=lambda c: 0 if c[0] in oid else 1)
     for _k, fn in checks:
         try:
@@ -370,7 +444,8 @@ def _site_checks(req):
         finally:
             mimetypes.init()
         if bad is not None:
-            return {"reproduced": True, "target": "sharepoint2text/parsing/extractors/" + bad[3], "inputs": bad[0], "expected": bad[1], "observed": bad[2]}
+            tgt = bad[3] if bad[3].startswith("sharepoint2text.") else "sharepoint2text/parsing/extractors/" + bad[3]
+            return {"reproduced": True, "target": tgt, "inputs": bad[0], "expected": bad[1], "observed": bad[2]}
     return None
 
 
@@ -380,7 +455,7 @@ def find(req):
     if rf is not None:
         return {"reproduced": True, "target": "sharepoint2text/__init__.py::read_file", "inputs": rf[0], "expected": rf[1], "observed": rf[2]}
     oid = (req.get("obligation") or "") + " " + (req.get("function") or "")
-    if "archive_extractor" in oid or "data_types" in oid:
+    if "archive_extractor" in oid or "data_types" in oid or "public-surface" in oid:
         site = _site_checks(req)
         if site is not None:
             return site
@@ -421,7 +496,7 @@ def find(req):
                 if oa != ob or oa[0] != "ok":
                     return _res(f"{s}.{a}", cname, f"alias .{a} behaves like .{b}", f"{oa} vs {ob}", tried)
     mimetypes.init()
-    if not ("archive_extractor" in oid or "data_types" in oid):
+    if not ("archive_extractor" in oid or "data_types" in oid or "public-surface" in oid):
         site = _site_checks(req)
         if site is not None:
             return site
